@@ -175,7 +175,8 @@ class C15(Prop):
             "token, a reference renamed to an undeclared identifier, an unsupported construct inserted, EIO on the "
             "r-th read) and a seeded short-read law; the reader is called under a virtual step budget of 50x the "
             "fault-free step count; then 0-4 further good or bad parses of any format and a few API edits follow, "
-            "and a fixed probe script must behave as in a fresh process; non-trivial = the fault plan was applied "
+            "and a fixed probe script must behave as in a fresh process; a text whose only fault is a cut at a token "
+            "boundary inside a Verilog module / primitive or EDIF form that the complete text closes must be refused; non-trivial = the fault plan was applied "
             "and changed what the reader saw; distinct = distinct (event-kind multiset, fingerprint of the sequence of states passed) pairs. "
             "The thorough tier additionally sweeps EVERY token boundary (truncation) and EVERY token (delete, "
             "duplicate) of every generated text of at most 400 tokens.")
@@ -184,7 +185,9 @@ class C15(Prop):
     components_stub = STUB
     assumptions = ["a reader that raises any exception has 'raised an error' (the statement does not fix its type)",
                    "the step budget counts executed lines of the tokenizer / parser modules only",
-                   "must-raise is asserted only for EDIF dangling references and inserted unsupported constructs"]
+                   "must-raise is asserted only for EDIF dangling references, inserted unsupported constructs, and a single "
+                   "token-boundary cut inside an unclosed module / primitive / EDIF form of a text without conditional "
+                   "compilation"]
     runs = {"quick": 5000, "thorough": 60000}
 
     def configure(self, rng, tier):
